@@ -27,12 +27,14 @@ import (
 type V1 struct {
 	ID    int
 	Trace []string
+	Num   any `json:",omitempty"` // a schemaless member: whatever the decoder makes of it is what f sees
 }
 type V2 struct {
 	ID    int
 	Extra string
 	Trace []string
 	Bomb  bomb
+	Num   any `json:",omitempty"`
 }
 type V3 struct {
 	ID    int
@@ -223,7 +225,7 @@ func (w *world) addTyped12() bool {
 		return false
 	}
 	fn := func(v V1) V2 {
-		return V2{ID: v.ID, Extra: "x", Trace: append(v.Trace, "t12"), Bomb: bomb{Armed: v.ID == 666}}
+		return V2{ID: v.ID, Extra: fmt.Sprintf("x:%T", v.Num), Trace: append(v.Trace, "t12"), Bomb: bomb{Armed: v.ID == 666}, Num: v.Num}
 	}
 	if err := ebu.RegisterUpcast(w.bus, fn); err != nil {
 		panic(err)
@@ -456,6 +458,8 @@ func TestC17(t *testing.T) {
 			switch {
 			case typ == nV1 && r.IntN(8) == 0:
 				data = json.RawMessage(`{"ID":"not-a-number"}`) // typed unmarshal error
+			case typ == nV1 && r.IntN(12) == 0:
+				data = json.RawMessage(fmt.Sprintf(`{"ID":%d} {"ID":%d}`, id, id+1)) // a second document after the first: does not decode either
 			default:
 				m := map[string]any{"ID": id, "Trace": []string{}, "Extra": "e", "pad": json.RawMessage(jgen.Doc(r, false))}
 				// events written by older versions omit fields (decode leaves the zero value)
@@ -470,6 +474,16 @@ func TestC17(t *testing.T) {
 				if r.IntN(10) == 0 {
 					delete(m, "ID")
 					id = 0
+				}
+				switch r.IntN(6) {
+				case 0:
+					m["Num"] = json.RawMessage(`12345678901234567890`)
+				case 1:
+					m["Num"] = json.RawMessage(`1.50`)
+				case 2:
+					m["Num"] = json.RawMessage(`1e2`)
+				case 3:
+					m["Num"] = "text"
 				}
 				data, _ = json.Marshal(m)
 			}
